@@ -23,6 +23,7 @@ Names travel as atoms in which every byte other than [A-Za-z0-9_] is written %XX
 produced by byte slicing is representable); the empty name is `%`.
 Types: bool int i8 i16 i32 i64 uint u8 u16 u32 u64 uintptr f32 f64 c64 c128 string func iface
        (p T) (sl T) (ar N T) (m K V) (ch T) (st T…) (nm PKG NAME T)   — PKG: 0 = the package itself.
+       error  (if M…) = interface{ M() … }  (nmm PKG NAME T M…) = named type with methods M() … (Error() string)
 -/
 import GoderiveModel.U.Wire
 import GoderiveModel.G.TypesMap
@@ -71,13 +72,24 @@ def basicName : String → Option String
   | "c128" => some "complex128" | "string" => some "string"
   | _ => none
 
+def atomsOf' : List SExp → Option (List String)
+  | [] => some []
+  | .atom a :: r => (atomsOf' r).map (a :: ·)
+  | _ => none
+
 mutual
 partial def parseGTy : SExp → Option GTy
   | .atom "func" => some .func
   | .atom "iface" => some .iface
+  | .atom "error" => some GTy.error
   | .atom a => (basicName a).map fun n => .basic (asc n)
   | .list [.atom "nm", .atom p, .atom n, t] => do
     pure (.named (← p.toNat?) (← unesc n) (← parseGTy t))
+  -- a named type with methods M1() M2() …: methods do not enter the identity of the type
+  | .list (.atom "nmm" :: .atom p :: .atom n :: t :: _ms) => do
+    pure (.named (← p.toNat?) (← unesc n) (← parseGTy t))
+  | .list (.atom "if" :: ms) => do
+    pure (.ifaceM (← (← atomsOf' ms).mapM unesc))
   | .list [.atom "p", t] => (parseGTy t).map .ptr
   | .list [.atom "sl", t] => (parseGTy t).map .slice
   | .list [.atom "ch", t] => (parseGTy t).map .chan
@@ -101,6 +113,7 @@ def basicAtom (n : Name) : String :=
 /-- wire form with `,` instead of spaces -/
 partial def showGTy : GTy → String
   | .basic n => basicAtom n
+  | .named 1000 _ _ => "error"
   | .named p n u => s!"(nm,{p},{esc n},{showGTy u})"
   | .ptr t => s!"(p,{showGTy t})"
   | .slice t => s!"(sl,{showGTy t})"
@@ -110,6 +123,7 @@ partial def showGTy : GTy → String
   | .struct fs => "(st" ++ showFields fs ++ ")"
   | .func => "func"
   | .iface => "iface"
+  | .ifaceM ms => "(if" ++ "".intercalate (ms.map fun m => "," ++ esc m) ++ ")"
   | .fnil => "?"
   | .fcons _ _ => "?"
 where showFields : GTy → String
